@@ -11,5 +11,7 @@ def body():
     print('status', d['status'], d['reason'], 'paths', d['paths'], 'checked', d['checked'], 'wall', round(d['wall_s'], 1), 'cases', len(d['cases']))
     for v in d['violations'][:int(os.environ.get('NV', '8'))]: print(json.dumps({k: str(x)[:400] for k, x in v.items() if k != 'model'}, indent=1))
     print('violations', len(d['violations']))
+    if os.environ.get('SHOWCASES'):
+        for k, v in d['cases'].items(): print('  case', k, v)
 threading.stack_size(1024 * 1024 * 1024); sys.setrecursionlimit(1000000)
 t = threading.Thread(target=body); t.start(); t.join()
